@@ -657,6 +657,14 @@ def fam_gamma_fixed():
         return ModelSpec('m', m.ops, {names[i]: m.nodes[names[i]] for i in order}, m.edges, note=note)
     out.append(("F11x:ring-decl-120", mk_perm([1, 2, 0], "ring of one kernel, nodes declared a1, a2, a0")))
     out.append(("F11x:ring-decl-210", mk_perm([2, 1, 0], "ring of one kernel, nodes declared a2, a1, a0")))
+    out.append(("F11x:mixed-spread-then-discrete", mk(lambda fp: [E('a0/li/x', 'a1/li/u', fp(), delay=F(1, 2), spread=F(1, 4)),
+                                                                  E('a1/li/x', 'a2/li/u', fp(), delay=F(1, 2)),
+                                                                  E('a2/li/x', 'a0/li/u', fp())],
+                                                      "a gamma-kernel edge and a plain delayed edge out of one vectorized source variable")))
+    out.append(("F11x:mixed-discrete-then-spread", mk(lambda fp: [E('a0/li/x', 'a1/li/u', fp(), delay=F(1, 2)),
+                                                                  E('a1/li/x', 'a2/li/u', fp(), delay=F(1, 2), spread=F(1, 4)),
+                                                                  E('a2/li/x', 'a0/li/u', fp())],
+                                                      "a plain delayed edge and a gamma-kernel edge out of one vectorized source variable")))
     out.append(("F11x:identical-kernels", mk(lambda fp: [E('a0/li/x', 'a1/li/u', fp(), delay=F(1), spread=F(1, 2)),
                                                          E('a0/li/x', 'a2/li/u', fp(), delay=F(1), spread=F(1, 2)),
                                                          E('a1/li/x', 'a0/li/u', fp(), delay=F(1), spread=F(1, 2))],
